@@ -9,14 +9,14 @@ QK = "UB:4096:16384"
 EXPORT_ALL_LIMIT = 150000
 SIM_NUM, SIM_DEPTH = 4000, 40
 BASE = dict(sinks=["S0", "S1"], order=["L0", "L1"], sinksets=[["S0"], ["S1"], ["S0", "S1"]], nstmt=2, nops=4, nidle=2, maxgen=2,
-            blocking=False)
+            blocking=False, failflush=[])
 CONFIGS = {
-    "quick": [("async", dict()),
+    "quick": [("async", dict(failflush=["S0"])),
               ("blocking", dict(sinksets=[["S0"], ["S1", "S0"]], nops=5, nstmt=2, blocking=True)),
               ("three-sinks", dict(sinks=["S0", "S1", "S2"], order=["L0"], sinksets=[["S1"], ["S2", "S0"]], nops=7, nstmt=1, nidle=1, maxgen=1))],
     "thorough": [("async6", dict(nops=6, nstmt=3, nidle=3)),
                  ("blocking7", dict(sinksets=[["S0"], ["S1", "S0"]], nops=7, nstmt=2, blocking=True, nidle=3)),
-                 ("three-sinks", dict(sinks=["S0", "S1", "S2"], sinksets=[["S0", "S1"], ["S1", "S2"], ["S2"]], nops=6, nstmt=2, nidle=2,
+                 ("three-sinks", dict(sinks=["S0", "S1", "S2"], failflush=["S1"], sinksets=[["S0", "S1"], ["S1", "S2"], ["S2"]], nops=6, nstmt=2, nidle=2,
                                       blocking=True, maxgen=1))],
 }
 INVS = ["NoUseAfterFree", "SinkLifetime", "BlockedSane", "TypeOK"]
@@ -40,8 +40,8 @@ def write_model(name, c, export):
     (d / (mod + ".tla")).write_text(f"---- MODULE {mod} ----\nEXTENDS Registry\nconst_order == {_seq(c['order'])}\n"
                                     f"const_sets == {{{','.join(_seq(s) for s in c['sinksets'])}}}\n====\n")
     txt = ("SPECIFICATION Spec\nCONSTANTS\n SinkNames = %s\n LoggerOrder <- const_order\n SinkSets <- const_sets\n NStmt = %d\n NOps = %d\n"
-           " NIdle = %d\n MaxGen = %d\n AllowBlocking = %s\n Export = %s\nINVARIANTS %s\nVIEW StateView\n%sCHECK_DEADLOCK FALSE\n"
-           % (_set(c["sinks"]), c["nstmt"], c["nops"], c["nidle"], c["maxgen"], b(c["blocking"]), b(bool(export)), " ".join(INVS),
+           " NIdle = %d\n MaxGen = %d\n AllowBlocking = %s\n FailFlush = %s\n Export = %s\nINVARIANTS %s\nVIEW StateView\n%sCHECK_DEADLOCK FALSE\n"
+           % (_set(c["sinks"]), c["nstmt"], c["nops"], c["nidle"], c["maxgen"], b(c["blocking"]), _set(c["failflush"]), b(bool(export)), " ".join(INVS),
               {True: "ACTION_CONSTRAINT ExportA\n", "sim": "ACTION_CONSTRAINT ExportSim\n"}.get(export, "")))
     return mod, vlib.write_cfg(d / (mod + ".cfg"), txt), d
 
@@ -54,7 +54,7 @@ def script_of(beh, c):
         L.append("mark step")
         a, act = h["arg"], h["act"]
         if act == "sink":
-            L.append(f"sink {a[0]}")
+            L.append(f"sink {a[0]}" + (" tf=" + ",".join(str(x) for x in range(1, 60)) if a[0] in c["failflush"] else ""))
         elif act == "getsink":
             L.append(f"getsink {a[0]}")
         elif act == "dropsink":
@@ -94,7 +94,7 @@ def _proj_model(beh):
         elif k == "write":
             cur.append(("w", h["s"], h["id"]))
         elif k == "sflush":
-            cur.append(("f", h["s"]))
+            cur.append(("f", h["s"], h["thr"]))
         elif k == "sinkdestroyed":
             cur.append(("d", h["s"]))
         elif k == "loggercount":
@@ -120,7 +120,7 @@ def compare(beh, evs):
         elif k == "Write":
             cur.append(("w", e["s"], e["id"]))
         elif k == "SinkFlush":
-            cur.append(("f", e["s"]))
+            cur.append(("f", e["s"], bool(e.get("thr"))))
         elif k == "SinkDestroyed":
             cur.append(("d", e["s"]))
         elif k == "LoggerCount":
